@@ -274,8 +274,11 @@ def gen_closed_coef(rng, vars_, in_order, outs):
 # data functions:  f_c(args) = c0 + sum_z a_z z + b sin(w z_p) + d z_p z_q     (z over the components of its args)
 # ---------------------------------------------------------------------------------------------
 
-def gen_data_fn(rng, name, dim, argvars):
-    """argvars: list of {"name","dim"} (the subset signature)"""
+def gen_data_fn(rng, name, dim, argvars, defaults=None, wrapped=False):
+    """argvars: list of {"name","dim"} (the subset signature); defaults: {var: [values]} declared default arguments
+    (those variables are put at the end of the signature); wrapped: the user hands over a UserFunction object"""
+    if defaults:
+        argvars = [v for v in argvars if v["name"] not in defaults] + [v for v in argvars if v["name"] in defaults]
     z = [(v["name"], i) for v in argvars for i in range(v["dim"])]
     comps = []
     for _ in range(dim):
@@ -284,8 +287,13 @@ def gen_data_fn(rng, name, dim, argvars):
                       "b": round(float(rng.uniform(0.3, 1.0)), 3), "w": round(float(rng.uniform(0.5, 2.0)), 3),
                       "d": round(float(rng.uniform(-0.5, 0.5)), 3),
                       "p": int(rng.integers(0, len(z))), "q": int(rng.integers(0, len(z)))})
-    return {"name": name, "dim": dim, "args": [v["name"] for v in argvars],
-            "argdims": [v["dim"] for v in argvars], "comps": comps}
+    out = {"name": name, "dim": dim, "args": [v["name"] for v in argvars],
+           "argdims": [v["dim"] for v in argvars], "comps": comps}
+    if defaults:
+        out["defaults"] = {k: list(v) for k, v in defaults.items()}
+    if wrapped:
+        out["wrapped"] = True
+    return out
 
 
 def _data_eval(dspec, get, xp):
@@ -310,14 +318,27 @@ def data_fn_torch(dspec, on_call=None):
         comps = _data_eval(dspec, lambda n: kw[n], torch)
         comps = torch.broadcast_tensors(*comps)
         return torch.cat(comps, dim=-1)
-    return make_fn("data_" + dspec["name"], dspec["args"], impl)
+    dflt = {k: torch.tensor(np.asarray(v, dtype=np.float32)).reshape(1, -1) for k, v in (dspec.get("defaults") or {}).items()}
+    fn = make_fn("data_" + dspec["name"], dspec["args"], impl, dflt)
+    if dspec.get("wrapped"):
+        from torchphysics.utils import UserFunction
+        return UserFunction(fn)
+    return fn
 
 
 def data_fn_np(dspec, coords):
     """float64 reference on coordinates given by name -> array (..., dim); returns (..., dim_f)"""
     if dspec.get("const") is not None:
         return np.asarray([dspec["const"]], dtype=np.float32).astype(np.float64)
-    comps = _data_eval(dspec, lambda n: np.asarray(coords[n], dtype=np.float64), np)
+    dflt = dspec.get("defaults") or {}
+
+    def get(n):
+        if n in coords:
+            return np.asarray(coords[n], dtype=np.float64)
+        if n in dflt:       # the declared default of a variable the sampler does not provide
+            return np.asarray(dflt[n], dtype=np.float32).astype(np.float64).reshape(1, -1)
+        raise KeyError(n)
+    comps = _data_eval(dspec, get, np)
     comps = np.broadcast_arrays(*comps)
     return np.concatenate(comps, axis=-1)
 
